@@ -26,10 +26,11 @@ HEAP_ONLY = ('copy', 'find', 'assign', 'set')
 
 
 class Tr:
-    def __init__(self, rel, space_param=None):
+    def __init__(self, rel, space_param=None, int_vars=()):
         self.rel = rel
         self.space = space_param
         self.space_uses = 0
+        self.int_vars = set(int_vars)     # names known to hold a Python int (the index of `for i in range(..)`): `i == 0` is `not i`
 
     def err(self, node, msg):
         raise TranslationError(self.rel, node, msg)
@@ -61,6 +62,13 @@ class Tr:
             for c in reversed(cs[:-1]):
                 out = ('and', c, out)
             return out
+        if isinstance(t, ast.Compare) and len(t.ops) == 1 and isinstance(t.ops[0], (ast.Eq, ast.NotEq)):
+            a, b = t.left, t.comparators[0]
+            if isinstance(a, ast.Constant):
+                a, b = b, a
+            if isinstance(a, ast.Name) and a.id in self.int_vars and isinstance(b, ast.Constant) and type(b.value) is int and b.value == 0:
+                v = ('var', self.name(a))
+                return ('not', v) if isinstance(t.ops[0], ast.Eq) else v
         self.err(t, 'condition is not a name / not / and')
 
     def is_call(self, v, attr, nargs):
@@ -356,7 +364,7 @@ def grow_link_descr(repo):
             and isinstance(it.func, ast.Name) and it.func.id == 'range' and len(it.args) == 1 and not it.keywords):
         raise TranslationError(rel, lp, 'the loop is not `for i in range(<arity>)`')
     body = clean(lp.body)
-    tr = Tr(rel)
+    tr = Tr(rel, int_vars=[lp.target.id])
     first = body[0] if body else None
     ok = (isinstance(first, ast.Assign) and len(first.targets) == 1 and isinstance(first.targets[0], ast.Name)
           and isinstance(first.value, ast.Call) and not first.value.keywords and len(first.value.args) == 2
